@@ -267,6 +267,7 @@ func runC11Case(cfg Cfg, base []Op, healthy *vfs.FS, model *Model, uuids []strin
 		}
 		r.U16 = uint16(100 + e)
 		r.P = 100 + e
+		r.S = fmt.Sprintf("extra%d", e) // S is unique under the custom-schema configuration
 		u := fmt.Sprintf("eeeeeeee-0000-4000-8000-00000000000%d", e)
 		fsys.Put(dir+"/"+u+ext, encodeForeignObjectFile(r, cfg))
 		onDisk[u] = true
